@@ -83,7 +83,7 @@ def imp_line(name, path):
     return "import %s%s" % (name + " " if name else "", json.dumps(REAL[path]))
 
 
-def render_patch(sc, code):
+def render_patch(sc, code, stmts=False):
     metas = sorted({pi["name"] for pi in sc["pimps"] if pi["form"] == "meta"})
     out = ["@@"]
     if metas:
@@ -99,6 +99,9 @@ def render_patch(sc, code):
         out.append("")
     out.append("-" + code[0])
     out.append("+" + code[1])
+    if stmts:
+        # a second statement: the '-' expression is then promoted to a statement list by the patch parser
+        out.append("+done()")
     return "\n".join(out) + "\n"
 
 
@@ -185,7 +188,7 @@ def run_cases(ctx, scs, name, allow_ref):
     reqs, meta = [], []
     for i, sc in enumerate(scs):
         code = choose_code(sc, ctx.rng, allow_ref)
-        patch = render_patch(sc, code)
+        patch = render_patch(sc, code, stmts=ctx.rng.random() < 0.3)
         src = render_file(sc, code[2], ctx.rng)
         cid = "%s-%d" % (name, i)
         meta.append(dict(id=cid, sc=sc, patch=patch, src=src, code=code))
